@@ -5,12 +5,14 @@
      - the context is a dictionary keyed by the STRINGS  '<name>_<arity>'  and  '<name>_n'
        (mkkey), values are the chains built by chain_functions (a list of definitions, in
        chain order); the fact store is keyed by (name, arity);
-     - YP.query is a generator: on its first `next` it takes the fact list of name/N as it
-       is then (a snapshot), yields the matching facts, and only when they are exhausted it
-       tests the blacklist and looks '<name>_<N>' (default '<name>_n') up in the context
-       as it is AT THAT MOMENT; the chain creates the generators of all its members at
-       once (so a member that cannot take N arguments raises before anything is yielded),
-       a member that returns (cut) or ends normally is followed by the next member;
+     - YP.query is a generator: creating it runs nothing; on its first `next` it tests the
+       blacklist and looks '<name>_<N>' (default '<name>_n') up in the context as it is AT
+       THAT MOMENT, takes the fact list of name/N as it is then (a snapshot) and yields the
+       matching facts; when they are exhausted it calls the function it looked up at the
+       start (whatever the context holds by then); the chain creates the generators of
+       all its members at once (so a member that cannot take N arguments raises, after the
+       facts and before any definition answers), a member that returns (cut) or ends
+       normally is followed by the next member;
      - load_script_from_string: exec in a copy, then merge every key the script bound
        (replace / chain after the old value); a script that cannot be compiled or raises
        while it is exec'd leaves the engine as it was.
@@ -215,15 +217,24 @@ Section Body.
                (fun fi e' => match fi with Norm | Cut => chain_gen r args nx s e' | x => Done x end) e
     end.
 
-  (* second half of YP.query: blacklist, lookup in the context as it is now, call *)
+  (* first statements of YP.query: blacklist test and
+     eval_context.get(f'{name}_{N}', eval_context.get(f'{name}_n')); None = nothing to call *)
+  Definition lookup_phase (c : ctx) (name : str) (n : nat) : option (list def) :=
+    if reserved name then None else resolve c name n.
+
+  (* last statements of YP.query: `if function is not None: yield from function( *args )` with
+     the function that was looked up when the call started *)
+  Definition call_phase (fn : option (list def)) (args : list nat) (nx : nat) (s : store) (e : engine) : step :=
+    match fn with
+    | None => Done Norm
+    | Some ds =>
+        if forallb (params_ok (length args)) ds then chain_gen ds args nx s e
+        else Done Raise                  (* TypeError when the chain calls its members *)
+    end.
+
+  (* lookup and call in one and the same engine (what a call does that has no facts to yield) *)
   Definition fun_phase (name : str) (args : list nat) (nx : nat) (s : store) (e : engine) : step :=
-    if reserved name then Done Norm
-    else match resolve (e_ctx e) name (length args) with
-         | None => Done Norm
-         | Some ds =>
-             if forallb (params_ok (length args)) ds then chain_gen ds args nx s e
-             else Done Raise                  (* TypeError when the chain calls its members *)
-         end.
+    call_phase (lookup_phase (e_ctx e) name (length args)) args nx s e.
 
   (* _match_all_clauses over the list that was current when the query started *)
   Fixpoint facts_gen (fs : list fact) (args : list nat) (s : store) (after : gen) (e : engine) : step :=
@@ -236,9 +247,12 @@ Section Body.
         end
     end.
 
+  (* the body of YP.query, entered at the first `next` under the engine e of that moment:
+     lookup in e, fact list of e, facts, then the call of what was looked up *)
   Definition query_body (name : str) (args : list nat) (nx : nat) (s : store) (e : engine) : step :=
+    let fn := lookup_phase (e_ctx e) name (length args) in
     smap (prune nx)
-         (facts_gen (db_get (e_db e) (name, length args)) args s (fun_phase name args nx s) e).
+         (facts_gen (db_get (e_db e) (name, length args)) args s (call_phase fn args nx s) e).
 End Body.
 
 (* YP.query; fuel = depth of nested calls still allowed (Oof = the recursion limit) *)
